@@ -486,6 +486,7 @@ def _execute(p, s, res):
     inp = Input(in_stream=s.inp, keynames=mode, paste_threshold=thr, sigint_event=cfg["sigint_event"],
                 disable_terminal_start_stop=cfg["dts"])
     ts_cbs = []
+    ts_rfds = []          # read ends of the trigger pipes, in creation order (observed at the pipe() seam)
     ev_cb = [None]
     sched_cb = [None]
     in_request = [False]
@@ -583,7 +584,7 @@ def _execute(p, s, res):
         M.req_reads = []
         pos0 = M.pos
         world.main_waited = False
-        stale = sum(1 for fd in inp.readers if kernel.readable(fd))
+        stale = sum(1 for fd in ts_rfds if kernel.readable(fd))
         res["states"].add("%d%d|%s|%d%d|%d|%s|%d" % (
             bool(M.q_events), bool(M.ts_completed), "due" if "scheduled_due" in deliv else "pend" if M.sched else "-",
             M.pos < len(M.entered), len(s.tty.inq) > 0, min(stale, 2),
@@ -621,6 +622,13 @@ def _execute(p, s, res):
         world.log.add("returned", si, kind, r if isinstance(r, (str, bytes)) else getattr(r, "n", None), round(now - start, 9))
         if len(reads) > 1:
             world.probe("paste_refilled")
+        # trigger-pipe reads of this request that did not produce its result were stale wake-ups
+        spurious = req_spur[0] - (1 if (isinstance(r, Ev) and M.event_serials.get(r.n, ("",))[0] == "ts" and world.main_waited) else 0)
+        if spurious > 0:
+            world.probe("stale_wakeup_spurious", spurious)
+            world.fault("stale_wakeup", spurious)
+            if spurious >= 2:
+                world.probe("two_spurious_in_one_request")
         # ---- bytes ---------------------------------------------------------------------
         if isinstance(r, events.PasteEvent):
             world.probe("paste_event")
@@ -718,12 +726,8 @@ def _execute(p, s, res):
 
     def read_obs(fd, n):
         data = orig_read(fd, n)
-        if fd in inp.readers and world.current is world.main and not inp.queued_interrupting_events:
-            world.probe("stale_wakeup_spurious")
-            world.fault("stale_wakeup")
-            req_spur[0] += 1
-            if req_spur[0] >= 2:
-                world.probe("two_spurious_in_one_request")
+        if fd in ts_rfds and world.current is world.main:
+            req_spur[0] += 1          # a trigger-pipe read by the app thread; judged spurious or not at return
         return data
     kernel.read = read_obs
     orig_select = kernel.select
@@ -741,7 +745,10 @@ def _execute(p, s, res):
         ev_cb[0] = inp.event_trigger(Ev)
         sched_cb[0] = inp.scheduled_event_trigger(SEv)
         for k in range(cfg["nts"]):
+            fds0 = set(kernel.open_fds())
             ts_cbs.append(inp.threadsafe_event_trigger(Ev))
+            new = sorted(set(kernel.open_fds()) - fds0)
+            ts_rfds.extend(fd for fd in new if kernel.fds[fd].kind == "pr")
         for ti, steps in enumerate(p["threads"]):
             world.spawn("t%d" % ti, thread_script(ti, steps))
         aborted = False
@@ -791,7 +798,7 @@ def _execute(p, s, res):
                     M.sched.append((when, n))
                     world.log.add("sched", when, n)
                 elif op == "ts_call":
-                    pipe = kernel.fds[inp.readers[st["trig"]]].pipe
+                    pipe = kernel.fds[ts_rfds[st["trig"]]].pipe
                     if pipe.cap >= 65536 and pipe.cap - len(pipe.buf) >= 19 * 8:
                         call_ts(st["trig"], "main")
                     else:
